@@ -8,7 +8,7 @@ test -f /opt/veriftools/tla/tla2tools.jar
 mkdir -p .work evidence
 fail=0
 for f in spec/*.tla; do
-  java -DTLA-Library=spec -cp /opt/veriftools/tla/tla2tools.jar:/opt/veriftools/tla/CommunityModules-deps.jar tla2sany.SANY "$f" >.work/sany.log 2>&1 || true
+  java -DTLA-Library=spec:/opt/veriftools/tlapm/lib/tlapm/stdlib -cp /opt/veriftools/tla/tla2tools.jar:/opt/veriftools/tla/CommunityModules-deps.jar tla2sany.SANY "$f" >.work/sany.log 2>&1 || true
   if grep -q "Semantic errors\|Fatal errors\|Parse Error\|Could not" .work/sany.log; then
     echo "WARNING: SANY reports errors in $f (the check using it will report a machinery failure)"; tail -5 .work/sany.log
   fi
